@@ -17,6 +17,7 @@ static Verdict run(const Case &c) {
     Mac own = h.ownmac(), other = mac_from_u64(0x0400EE000001ULL);
     size_t cap = (h.mtu - 34) / 20;
     Shadow sh;
+    OtherIf oif;
     std::map<ObsKey, QDesc> obs;        // model: what must be reported
     bool had_dup = false, had_foreign = false;
     int rounds = 0, multi_rounds = 0, nontriv_rounds = 0, maxk = 0;
@@ -117,6 +118,7 @@ static Verdict run(const Case &c) {
                 if (query(seq, q) && (q.n != 0 || q.more)) v.fail(fmt("step %zu: Query after a completed round still reports %u descriptors", i, q.n));
                 break;
             }
+            case K_OTHERIF: oif.step(w, h, op); break;   // another interface of the host observes, is queried and is reset on its own
             default: {
                 Built b = build_frame(h, op, sh);
                 if (!b.is_frame) break;
@@ -169,7 +171,7 @@ int main(int argc, char **argv) {
                 next_id += (int)n; left -= n;
                 int extras = *gx::range<int>(0, 3);
                 for (int x = 0; x < extras; x++) {
-                    int what = *gx::range<int>(0, 7);
+                    int what = *gx::range<int>(0, 9);
                     Op o;
                     if (what == 0 && next_id > 0) { int id = *gx::range<int>(0, next_id - 1); o.kind = K_PROBE; o.a = {id, id % 3, 0, 0}; }   // exact duplicate (maybe of an already reported one: then it is new again)
                     else if (what == 1) { o.kind = K_BURST; o.a = {*gx::range<int>(400, 800), *gx::range<int>(1, 5), *gx::pick({1, 1, 2, 3})}; }   // addressed to another station (both levels or one of them)
@@ -178,6 +180,8 @@ int main(int argc, char **argv) {
                     else if (what == 4) { o.kind = K_QLT; o.a = {-1, *hg::seq_gen(), *gx::pick({0x0E, 0x11, 0x13}), 0, 0}; }
                     else if (what == 6 && next_id > 0) { int id = *gx::range<int>(0, next_id - 1); o.kind = K_PROBE; o.a = {id, (id + 1 + *gx::range<int>(0, 1)) % 3 + 3, 0, 0}; }   // same Ethernet source as an earlier observation, another real source: a distinct observation
                     else if (what == 7) { o.kind = K_RESET; o.a = {0, 1, 1}; }   // Reset of the quick-discovery service: releases the mapper, but the topology observations stay
+                    else if (what == 8) { o.kind = K_SHELL; o.a = {*gx::range<int>(0, 2), 1, *gx::pick({6, 6, 2, 4}), *hg::seq_gen(), 0}; }   // quick discovery has no Query/Emit/Probe: such a frame is neither answered nor does it consume the record
+                    else if (what == 9) { o.kind = K_OTHERIF; o.a = {*gx::pick({0, 3, 5, 5, 5, 1, 2}), 0, *gx::range<int>(1, 400)}; }
                     else { o.kind = K_HELLO; o.a = {1, 0, 7}; }
                     c.ops.push_back(o);
                 }
@@ -189,6 +193,10 @@ int main(int argc, char **argv) {
                 Op b; b.kind = K_BURST; b.a = {next_id, *gx::range<int>(1, 40), 0}; next_id += (int)b.a[1];
                 c.ops.push_back(b);
                 Op rs; rs.kind = K_RESET; rs.a = {0, 0, 1};
+                int variant = *gx::range<int>(0, 9);
+                if (variant == 0) { Op rq; rq.kind = K_RESET; rq.a = {0, 1, 1}; c.ops.push_back(rq); }   // the quick service is reset first (mapper released), then the topology service: the record goes all the same
+                if (variant == 1) { c.ops.push_back(rs); Op b2; b2.kind = K_BURST; b2.a = {next_id, *gx::range<int>(1, 5), 0}; next_id += (int)b2.a[1]; c.ops.push_back(b2); }   // Reset, observations while no mapper is known, Reset again
+                if (variant == 2) rs.a = {*gx::range<int>(1, 2), 0, *gx::pick({0, 1})};   // the Reset comes from a station that is not the mapper, broadcast or unicast
                 c.ops.push_back(rs);
                 c.ops.push_back(d);
                 if (*gx::chance(70)) { Op again; again.kind = K_BURST; again.a = {first, *gx::range<int>(1, (int)b.a[1]), 0}; c.ops.push_back(again); }   // re-observation after the Reset must be reported
